@@ -98,7 +98,7 @@ class ExprMixin:
                      "isarray", "ufn", "trunc", "apply", "pairs_kept", "nyielded", "consumed", "nitems", "item",
                      "yields_items_of", "mapped", "induct", "assume_axiom", "chunk_off", "defined_len", "is_permutation",
                      "bo_fields", "bo_order", "bo_bytes", "bo_swapped", "bo_value", "bo_big", "bo_little", "bo_native",
-                     "bo_names", "machine_little"}
+                     "bo_names", "machine_little", "approx", "psum"}
 
     def builtin(self, name):
         if name in EXC_NAMES:
@@ -256,6 +256,18 @@ class ExprMixin:
         if opn == "Sub":
             return x - y
         if opn == "Mult":
+            if "mul" in getattr(self, "abstract", ()) and real and as_const(x) is None and as_const(y) is None:
+                # uninterpreted product with its sign rules (ground, linear): enough for "which formula is computed"
+                from .nplib import ufunc, R
+                f = ufunc("RMUL", R, R, R)
+                r = f(x, y)
+                for fact in (f(y, x) == r,
+                             z3.Implies(z3.Or(z3.And(x > 0, y > 0), z3.And(x < 0, y < 0)), r > 0),
+                             z3.Implies(z3.Or(z3.And(x > 0, y < 0), z3.And(x < 0, y > 0)), r < 0),
+                             z3.Implies(z3.Or(x == 0, y == 0), r == 0)):
+                    if not any(fact.eq(g) for g in st.pc):
+                        st.pc.append(fact)
+                return r
             return x * y
         if opn == "Div":
             if not fr.spec:
